@@ -104,9 +104,9 @@ pub enum KvOp {
     Reopen,
 }
 
-const STEMS: [&str; 8] = ["aaa", "abc", "ab", "zz9", "k", "x.y", "1-0f", "aa"];
-const EXTS: [&str; 11] = [".delta", ".pack", ".flate", ".brotli", ".delta.flate", ".pack.pack", ".flate.flate", ".txt", "", ".brotli.delta", ".deltax"];
-const SUFFIXES: [&str; 14] = ["", ".delta", ".pack", ".flate", ".brotli", "delta", ".del", "a.delta", ".delta.flate", ".pack.pack", "x", "9.pack", ".this-suffix-is-longer-than-any-key", "ck"];
+const STEMS: [&str; 12] = ["aaa", "abc", "ab", "zz9", "k", "x.y", "1-0f", "aa", "AAA", "a_c", "a%c", "aXc"];
+const EXTS: [&str; 14] = [".delta", ".pack", ".flate", ".brotli", ".delta.flate", ".pack.pack", ".flate.flate", ".txt", "", ".brotli.delta", ".deltax", ".PACK", ".Delta", "_v1"];
+const SUFFIXES: [&str; 20] = ["", ".delta", ".pack", ".flate", ".brotli", "delta", ".del", "a.delta", ".delta.flate", ".pack.pack", "x", "9.pack", ".this-suffix-is-longer-than-any-key", "ck", ".PACK", "_v1", "_c.pack", "%", "a%c.delta", "c.pack"];
 
 fn key_of(k: u16) -> String {
     let s = STEMS[(k as usize) % STEMS.len()];
@@ -139,12 +139,12 @@ fn value_of(kind: u8, len: u16, fill: u64) -> Vec<u8> {
 }
 
 pub fn kv_strategy() -> BoxedStrategy<Vec<KvOp>> {
-    let key = || prop_oneof![3 => 0u16..8, 1 => 0u16..88];
+    let key = || prop_oneof![3 => 0u16..12, 2 => 0u16..168];
     let op = prop_oneof![
         6 => (key(), any::<u8>(), any::<u16>(), any::<u64>()).prop_map(|(key, val, len, fill)| KvOp::Write { key, val, len, fill }),
         4 => key().prop_map(|key| KvOp::ReadFull { key }),
         4 => (key(), any::<u16>(), any::<u16>()).prop_map(|(key, off, len)| KvOp::ReadSlice { key, off, len }),
-        3 => (0u8..14).prop_map(|suffix| KvOp::List { suffix }),
+        3 => (0u8..20).prop_map(|suffix| KvOp::List { suffix }),
         1 => Just(KvOp::Reopen),
     ];
     vec(op, 1..30).boxed()
@@ -278,7 +278,7 @@ pub struct RepCase {
 }
 
 pub fn rep_strategy() -> BoxedStrategy<RepCase> {
-    let mix = Mix { update: 10, commit: 7, meldrefresh: 6, meld: 0, refresh: 1, reload: 1, reopen: 3, filecopy: 0, resolve: 3, unstage: 1, stagert: 0, snapshot: 1, timetravel: 0, lowlevel: 0, rich: true, rich_info: true };
+    let mix = Mix { update: 10, commit: 7, meldrefresh: 6, meld: 0, refresh: 1, reload: 1, reopen: 3, filecopy: 0, resolve: 3, unstage: 1, stagert: 0, snapshot: 1, timetravel: 0, lowlevel: 0, mergecommit: 0, rich: true, rich_info: true };
     gen::history(&mix, 24).prop_map(|ops| RepCase { ops }).boxed()
 }
 
